@@ -12,6 +12,7 @@ import (
 	"github.com/gofiber/utils/v2"
 	"github.com/tinylib/msgp/msgp"
 	"github.com/valyala/bytebufferpool"
+	"github.com/valyala/fasthttp"
 )
 
 // Pool for redirection
@@ -318,8 +319,13 @@ func (r *Redirect) parseAndClearFlashMessages() {
 		return
 	}
 
-	// the messages are consumed now, tell the client to drop the cookie
-	r.c.ClearCookie(FlashCookieName)
+	// the messages are consumed now, tell the client to drop the cookie. A cookie is identified by name and path:
+	// it was issued for "/", without that path a client would file the expiry under the directory of this request
+	r.c.Cookie(&Cookie{
+		Name:    FlashCookieName,
+		Path:    "/",
+		Expires: fasthttp.CookieExpireDelete,
+	})
 }
 
 // processFlashMessages is a helper function to process flash messages and old input data
